@@ -410,7 +410,8 @@ def spanterm_engine(run, tier, seed):
     import re
     import core
     plan = [("mixed", 200, 1500), ("stepall", 150, 1000), ("c03", 100, 600), ("c05", 80, 500), ("c06", 80, 500), ("c18", 80, 500),
-            ("c08", 80, 500), ("hostile", 80, 500), ("c17", 40, 300)]
+            ("c08", 80, 500), ("hostile", 80, 500), ("c17", 40, 300), ("c04", 40, 300), ("c07", 40, 300), ("c09", 40, 300),
+            ("c14", 30, 200), ("c19", 20, 150)]
     import json, os
     import witness as wit
     cpath = os.path.join(core.VERIF, "corpus", "spanterm", "cases.json")
